@@ -357,6 +357,9 @@ class Ctx:
         if not cov["samples"]:
             cov["samples"] = [{"note": "no behaviours were produced"}]
         cov["known_findings_hit"] = self.known_hits
+        if isinstance(cov.get("checker_cmd"), list):
+            cov["checker_cmds"] = cov["checker_cmd"]
+            cov["checker_cmd"] = " ; ".join(cov["checker_cmd"])
         ev = {
             "property_id": self.pid, "tier": self.tier, "seed": self.seed, "level": self.level,
             "coverage": cov, "assumptions": self.assumptions, "wall_s": round(wall, 2),
